@@ -449,7 +449,19 @@ def _opt_cases(I, st, v):
     v = deref(I, st, v)
     if isinstance(v, VEnum):
         return [(st, v.variant, v.payload[0] if v.payload else None, v)]
-    if isinstance(v, (VTop, VUser)):
+    if isinstance(v, VUser):
+        # an option-valued element of unknown tag: the decision is a fact of the path (as in pattern matching), the
+        # payload a function of the element
+        key = ("is_some", v.key)
+        if (key, True) in st.unk:
+            return [(st, "Some", VNat(Poly.atom(("somev", v.key))), None)]
+        if (key, False) in st.unk:
+            return [(st, "None", None, None)]
+        s2 = st.copy()
+        st.unk = st.unk + ((key, True),)
+        s2.unk = s2.unk + ((key, False),)
+        return [(st, "Some", VNat(Poly.atom(("somev", v.key))), None), (s2, "None", None, None)]
+    if isinstance(v, VTop):
         s2 = st.copy()
         key = getattr(v, "why", None) or getattr(v, "key", "?")
         return [(st, "Some", VTop("payload of " + str(key)), None), (s2, "None", None, None)]
